@@ -128,6 +128,11 @@ def handle (l : Line) : IO Unit := do
   if l.kind != "case" then return
   let id := l.id
   let kind := l.getD "kind" "f"
+  if kind == "m" then
+    -- many distinct values through one long-lived filter: the harness counts the results whose
+    -- Test bits differ from the expression's denotation (computed per value); the spec demands none
+    IO.println s!"spec {id} many=0 first=-"
+    return
   let name := (l.bytes? "name").getD []
   let cfg := parseCfg (l.getD "cfg" "-")
   let units := (l.hexList? "units").getD []
